@@ -408,6 +408,31 @@ func runRegress(t *testing.T, prop string) int {
 	return n
 }
 
+// concurrently runs f in n goroutines at once and returns the first error: decoders and encoders are used by
+// hundreds of workers at a time, so package-level scratch state shows up as a mismatch in one of the twins.
+func concurrently(n int, f func() error) error {
+	errs := make(chan error, n)
+	start := make(chan struct{})
+	for i := 0; i < n; i++ {
+		go func() {
+			<-start
+			var err error
+			for k := 0; k < 4 && err == nil; k++ {
+				err = f()
+			}
+			errs <- err
+		}()
+	}
+	close(start)
+	var first error
+	for i := 0; i < n; i++ {
+		if e := <-errs; e != nil && first == nil {
+			first = e
+		}
+	}
+	return first
+}
+
 // drawCase is a tiny helper so that generated cases appear in rapid's log on failure.
 func drawCase[T any](t *rapid.T, gen func(*rapid.T) T) T {
 	return rapid.Custom(gen).Draw(t, "case")
